@@ -18,19 +18,26 @@ remove_empties) is matched IN FULL (re.match under UNICODE|DOTALL and
 end == len) by at least one returned expression; with strip it is the
 original, unstripped string that must match.
 
-Violation signatures name the root cause, established by a counterfactual
-re-run of the same case with the suspected character replaced:
-  bracket:{^,-}            curing substitution '^' -> '~'
-  nonascii-digit:U+XXXX    curing substitution of that str.isdigit() character
-                           by '7'
+Violation signatures name the root cause, established by counterfactual
+re-runs of the same configuration on a modified input (RexDriver.diagnose):
+  bracket:{^,-}            the failure disappears both with '^' -> '~' and
+                           with '-' -> '~' (the pair is what matters)
+  nonascii-digit:U+XXXX    it disappears both when the non-ASCII
+                           str.isdigit() characters become '7' and when they
+                           become a non-ASCII letter; XXXX = first such
+                           character of the first unmatched example
+  A+B                      only curing both removes it
   sampled-last-attempt     only with a sampling Size: the same input is fully
                            matched without sampling and every unmatched example
                            is in the extractor's final working set (it was
                            appended after the last extraction)
   sampled-not-considered   ditto, but an unmatched example never reached the
                            working set
-  raises:<Type>...         extract raised
-  unmatched:{classes}      anything else (character classes of the example)
+  raises:<Type>:<cause>    extract raised
+  unmatched:opts=<needed options>:chars={needed character classes}
+                           anything else: greedy minimisation (drop options,
+                           drop examples, neutralise characters) of the
+                           failing input
 
 This module also holds the driver shared with C13 (RexDriver).
 """
@@ -137,8 +144,8 @@ class RexDriver(Check):
               'structured and >99-fragment strings) and hand-picked larger '
               'sets x the full option lattice; dict and pandas forms'),
              ('n2-dev2', 'all pairs of the 157 strings over Sigma_q (L<=2) x '
-              'options within 2 deviations of the default (form counts as a '
-              'deviation)'),
+              'the 49 option points within 2 deviations of the default (list '
+              'form) + dict and pandas object forms at the default'),
              ('n2-structured', 'all pairs of structured examples x options '
               'within 2 deviations'),
              ('sampled', 'E2: sets of 3-5 from the 8-string pool x 8 Size '
@@ -186,7 +193,7 @@ class RexDriver(Check):
                 yield {'ex': list(xs), 'pts': 'full', 'forms': 'all'}
         elif layer == 'n2-dev2':
             for xs in A.example_sets(self.pool_q(), 2):
-                yield {'ex': xs, 'pts': 'dev2', 'forms': 'all'}
+                yield {'ex': xs, 'pts': 'dev2', 'forms': 'lite'}
         elif layer == 'n2-structured':
             for xs in A.example_sets(A.STRUCTURED, 2):
                 yield {'ex': xs, 'pts': 'dev2', 'forms': 'all'}
@@ -289,6 +296,9 @@ class RexDriver(Check):
             if bound >= 1:
                 out += [('pd:%s' % k, dict(A.DEFAULT_OPTIONS))
                         for k in A.PANDAS_KINDS]
+        elif forms == 'lite':
+            out.append(('dict', dict(A.DEFAULT_OPTIONS)))
+            out.append(('pd:object', dict(A.DEFAULT_OPTIONS)))
         cache[key] = out
         return out
 
@@ -468,8 +478,10 @@ class C03(RexDriver):
     rule = ('cases = example sets (size<=1 over Sigma_q L<=2, all ASCII '
             'characters, structured strings: full 240-point option lattice; '
             'size 2 over the 157 strings and over the structured list: '
-            'options within 2 deviations of the default, input form counted '
-            'as a deviation; thorough adds Sigma_t, L=3, triples, the rest of '
+            'options within 2 deviations of the default (for the structured '
+            'list the input form is counted as a deviation, for the 157 '
+            'strings dict and pandas forms run at the default only); '
+            'thorough adds Sigma_t, L=3, triples, the rest of '
             'the lattice) and, for the sampled path, (set of 3-5 strings, '
             'Size(do_all, do_all_exceptions, max_sampled_attempts) in '
             '{1,2}^3, seed) with every sample answer explored; an evaluation '
